@@ -85,32 +85,40 @@ rule for that other family — this also applies to the negated fields. -/
 def familyOK (v6 : Bool) (nets : List String) : Bool :=
   nets.isEmpty || nets.any (fun c => cidrIsV6 c == v6)
 
-/-- **Reference semantics**: does policy rule `r` match packet `pkt`?
-Every criterion that is present must hold (positive lists: any element; negated lists: no
-element; IP set lists: every set / no set). -/
-def ruleMatches (env : Env) (setName : String → String) (r : Rule) (pkt : Packet) : Bool :=
-  (r.ipVersion == 0 || r.ipVersion == (if pkt.v6 then 6 else 4)) &&
+/-- CIDR criteria (positive lists: some CIDR of the packet's family contains the address;
+negated lists: none does; plus the family reading above). -/
+def netsMatch (env : Env) (r : Rule) (pkt : Packet) : Bool :=
   familyOK pkt.v6 r.srcNet && familyOK pkt.v6 r.notSrcNet &&
   familyOK pkt.v6 r.dstNet && familyOK pkt.v6 r.notDstNet &&
-  (match r.protocol with | none => true | some p => protoIs env (protoTrunc p) pkt.proto) &&
   (r.srcNet.isEmpty || r.srcNet.any (fun c => netHas env pkt.v6 c pkt.src)) &&
+  (r.dstNet.isEmpty || r.dstNet.any (fun c => netHas env pkt.v6 c pkt.dst)) &&
+  !r.notSrcNet.any (fun c => netHas env pkt.v6 c pkt.src) &&
+  !r.notDstNet.any (fun c => netHas env pkt.v6 c pkt.dst)
+
+/-- every criterion other than IP version and CIDRs -/
+def restMatch (env : Env) (setName : String → String) (r : Rule) (pkt : Packet) : Bool :=
+  (match r.protocol with | none => true | some p => protoIs env (protoTrunc p) pkt.proto) &&
   r.srcIpSetIds.all (fun id => env.inIPSet (setName id) pkt.src) &&
   portsMatch env setName r.srcPorts r.srcNamedPortIpSetIds pkt.proto pkt.src pkt.sport &&
-  (r.dstNet.isEmpty || r.dstNet.any (fun c => netHas env pkt.v6 c pkt.dst)) &&
   r.dstIpSetIds.all (fun id => env.inIPSet (setName id) pkt.dst) &&
   r.dstIpPortSetIds.all (fun id => env.inIPPortSet (setName id) pkt.dst pkt.proto pkt.dport) &&
   portsMatch env setName r.dstPorts r.dstNamedPortIpSetIds pkt.proto pkt.dst pkt.dport &&
   icmpMatches pkt r.icmp &&
   (match r.notProtocol with | none => true | some p => !protoIs env (protoTrunc p) pkt.proto) &&
-  !r.notSrcNet.any (fun c => netHas env pkt.v6 c pkt.src) &&
   r.notSrcIpSetIds.all (fun id => !env.inIPSet (setName id) pkt.src) &&
   (r.notSrcPorts.isEmpty || (isPortProto pkt.proto && !inRanges r.notSrcPorts pkt.sport)) &&
   r.notSrcNamedPortIpSetIds.all (fun id => !env.inIPPortSet (setName id) pkt.src pkt.proto pkt.sport) &&
-  !r.notDstNet.any (fun c => netHas env pkt.v6 c pkt.dst) &&
   r.notDstIpSetIds.all (fun id => !env.inIPSet (setName id) pkt.dst) &&
   (r.notDstPorts.isEmpty || (isPortProto pkt.proto && !inRanges r.notDstPorts pkt.dport)) &&
   r.notDstNamedPortIpSetIds.all (fun id => !env.inIPPortSet (setName id) pkt.dst pkt.proto pkt.dport) &&
   notIcmpMatches pkt r.notIcmp
+
+/-- **Reference semantics**: does policy rule `r` match packet `pkt`?
+Every criterion that is present must hold (positive lists: any element; negated lists: no
+element; IP set lists: every set / no set). -/
+def ruleMatches (env : Env) (setName : String → String) (r : Rule) (pkt : Packet) : Bool :=
+  (r.ipVersion == 0 || r.ipVersion == (if pkt.v6 then 6 else 4)) &&
+  netsMatch env r pkt && restMatch env setName r pkt
 
 /-- What a matching rule does. -/
 inductive RuleAction where
